@@ -18,6 +18,7 @@ use rlverif::*;
 
 #[derive(Clone, Copy, PartialEq, Eq, Debug)]
 enum Ty {
+    I16,
     I32,
     I64,
     Str,
@@ -27,6 +28,7 @@ enum Ty {
 impl Ty {
     fn tag(self) -> &'static str {
         match self {
+            Ty::I16 => "i16",
             Ty::I32 => "i32",
             Ty::I64 => "i64",
             Ty::Str => "str",
@@ -35,6 +37,7 @@ impl Ty {
     }
     fn sql(self) -> &'static str {
         match self {
+            Ty::I16 => "smallint",
             Ty::I32 => "int",
             Ty::I64 => "bigint",
             Ty::Str => "varchar",
@@ -43,6 +46,7 @@ impl Ty {
     }
     fn of_tag(s: &str) -> Ty {
         match s {
+            "i16" => Ty::I16,
             "i32" => Ty::I32,
             "i64" => Ty::I64,
             "str" => Ty::Str,
@@ -102,6 +106,7 @@ fn gen_cell(r: &mut Rng, ty: Ty, key: bool) -> String {
         return "null".into();
     }
     match ty {
+        Ty::I16 => format!("i16:{}", if key { r.range(0, 3) } else { r.range(-4, 6) }),
         Ty::I32 => format!("i32:{}", if key { r.range(0, 3) } else { r.range(-4, 6) }),
         Ty::I64 => format!("i64:{}", if key { r.range(0, 3) } else { r.range(-4, 6) }),
         Ty::Str => format!("s:{}", hex(r.pick(&["", "a", "b", "ab"]).as_bytes())),
@@ -185,9 +190,9 @@ fn rechunk_plan(p: &str) -> String {
 }
 
 fn gen_join(r: &mut Rng) -> Case {
-    // L: a:i32 b:i64 c:i32 s:str     R: x:i32 y:i64 z:i32 w:str
-    let types = vec![Ty::I32, Ty::I64, Ty::I32, Ty::Str];
-    let keycols = [true, true, true, true];
+    // L: a:i32 b:i64 c:i32 s:str k:i16     R: x:i32 y:i64 z:i32 w:str u:i16
+    let types = vec![Ty::I32, Ty::I64, Ty::I32, Ty::Str, Ty::I16];
+    let keycols = [true, true, true, true, true];
     let big_left = r.chance(1, 2);
     let (mut nl, mut nr) = (gen_size(r, big_left), gen_size(r, !big_left));
     if nl > 64 {
@@ -206,12 +211,18 @@ fn gen_join(r: &mut Rng) -> Case {
 
     let jt = *r.pick(&["inner", "inner", "left_outer", "left_outer", "right_outer", "full_outer", "semi", "anti"]);
     // key pairs: (left col, right col)
-    let kind = r.below(10);
+    // (keys of different integer widths are compared by value since the /repo `fix:` commit
+    // "join keys compare by value": every pair of widths, both directions)
+    let kind = r.below(14);
     let first: (usize, usize) = match kind {
         0..=4 => (0, 0), // i32 = i32
         5 | 6 => (1, 1), // i64 = i64
         7 => (3, 3),     // str = str
-        _ => (0, 1),     // i32 = i64 (mixed widths)
+        8 | 9 => (0, 1), // i32 = i64 (mixed widths)
+        10 => (1, 0),    // i64 = i32
+        11 => (4, 0),    // i16 = i32
+        12 => (4, 1),    // i16 = i64
+        _ => (1, 4),     // i64 = i16
     };
     let mut pairs = vec![first];
     if r.chance(1, 4) {
@@ -224,8 +235,8 @@ fn gen_join(r: &mut Rng) -> Case {
         on = format!("(and {} (= {} {}))", on, lks[i], rks[i]);
     }
     let filtered = r.chance(1, 5);
-    let l = if filtered { format!("(filter (>= $0.2 1) {})", scan(0, 4)) } else { scan(0, 4) };
-    let rr = scan(1, 4);
+    let l = if filtered { format!("(filter (>= $0.2 1) {})", scan(0, 5)) } else { scan(0, 5) };
+    let rr = scan(1, 5);
     let semi = jt == "semi" || jt == "anti";
     let resid = if semi && r.chance(1, 2) {
         Some((*r.pick(&["(> $0.1 $1.1)", "(<> $0.2 $1.2)", "(<= $0.2 $1.2)"])).to_string())
@@ -269,7 +280,16 @@ fn gen_join(r: &mut Rng) -> Case {
         family: "join".into(),
         detail: format!(
             "{jt} keys={} {}{}",
-            match kind { 0..=4 => "i32=i32", 5 | 6 => "i64=i64", 7 => "str=str", _ => "i32=i64" },
+            match kind {
+                0..=4 => "i32=i32",
+                5 | 6 => "i64=i64",
+                7 => "str=str",
+                8 | 9 => "i32=i64",
+                10 => "i64=i32",
+                11 => "i16=i32",
+                12 => "i16=i64",
+                _ => "i64=i16",
+            },
             if pairs.len() > 1 { "two-keys " } else { "" },
             if resid.is_some() { "residual" } else { "" }
         ),
